@@ -274,6 +274,7 @@ Tangent<G> Spline<K, G>::arclength(double t) const
   requires(K == 3)
 {
   Tangent<G> ret = Tangent<G>::Zero();
+  t              = std::max<double>(t, 0);
 
   for (auto i = 0u; i < m_end_t.size(); ++i) {
     // check if we have reached t
